@@ -23,6 +23,8 @@ def programs(tier: str):
         out += list(skeleton_sources(3, "marked", loop_else_upto=2)) + list(skeleton_sources(3, "bare", loop_else_upto=2))
         out += list(expr_programs(2, 4))
     out += list(all_target_programs())
+    from ..progs import arm_programs
+    out += list(arm_programs(tier))
     return out
 
 
